@@ -55,6 +55,97 @@ def forward_taint(fn, seeds, through_calls=False, through_refs=True):
     return t
 
 
+def forward_taint_fields(fn, seeds, through_calls=True):
+    """forward_taint that keeps the parts of tuples / structs / Ok(..) values apart: returns the set of locals that hold
+    (as a whole, or in the part that is read from them) a value computed from a seed.  `let (a, b) = helper()?` where
+    the helper returns `Ok((x, y))`: a is tainted by x only."""
+    T = {l: {()} for l in seeds}
+
+    def fields_of(proj):
+        out, var = [], None
+        for e in proj:
+            if e.get("p") == "downcast":
+                var = e.get("variant")
+            elif e.get("p") == "field" and isinstance(e.get("i"), int):
+                out.append((var, e["i"]))
+                var = None
+        return tuple(out)
+
+    def read(place):
+        """Paths (relative to the value read) under which the place is tainted; None if it is not."""
+        ps = T.get(place["local"])
+        if not ps:
+            return None
+        fp = fields_of(place["proj"])
+        out = set()
+        for p in ps:
+            if p[:len(fp)] == fp:
+                out.add(p[len(fp):])
+            elif fp[:len(p)] == p:
+                out.add(())
+        return out or None
+
+    def add(l, paths):
+        cur = T.setdefault(l, set())
+        n = len(cur)
+        cur |= paths
+        if () in cur and len(cur) > 1:
+            cur.intersection_update({()})
+            cur.add(())
+        return len(cur) != n
+    changed = True
+    while changed:
+        changed = False
+        for blk in fn.blocks:
+            if blk["cleanup"]:
+                continue
+            for st in blk["stmts"]:
+                if st["s"] != "assign":
+                    continue
+                rv = st["rv"]
+                d = st["place"]["local"]
+                dfp = fields_of(st["place"]["proj"])
+                if rv["r"] in ("use", "cast") and rv["op"]["k"] in ("copy", "move"):
+                    r = read(rv["op"]["place"])
+                    if r:
+                        changed |= add(d, {dfp + p for p in r})
+                elif rv["r"] in ("ref", "rawptr"):
+                    r = read(rv["place"])
+                    if r:
+                        changed |= add(d, {dfp + p for p in r})
+                elif rv["r"] == "aggregate":
+                    for i, o in enumerate(rv.get("ops", [])):
+                        if o["k"] in ("copy", "move"):
+                            r = read(o["place"])
+                            if r:
+                                var = rv.get("variant") if rv.get("agg") == "adt" and rv.get("variant") in ("Ok", "Err", "Some", "None", "Continue", "Break") else None
+                                changed |= add(d, {dfp + ((var, i),) + p for p in r})
+                else:
+                    if any(read(pl) for pl in rv_places(rv)):
+                        changed |= add(d, {dfp})
+            t = blk["term"]
+            if t["t"] == "call" and through_calls:
+                nm = (t.get("callee") or "") + " " + (t.get("resolved") or "")
+                if ("Try>::branch" in nm or "Try::branch" in nm) and t["args"] and t["args"][0]["k"] in ("copy", "move"):
+                    r = read(t["args"][0]["place"])      # Ok(v) -> Continue(v): the payload keeps its place
+                    if r:
+                        conv = set()
+                        for p in r:
+                            if p and p[0][0] in ("Ok", "Some"):
+                                conv.add((("Continue", p[0][1]),) + p[1:])
+                            elif p and p[0][0] in ("Err", "None"):
+                                conv.add((("Break", 0),))
+                            else:
+                                conv.add(p)
+                        changed |= add(t["dest"]["local"], conv)
+                elif "from_residual" in nm:
+                    if any(a["k"] in ("copy", "move") and read(a["place"]) for a in t["args"]):
+                        changed |= add(t["dest"]["local"], {fields_of(t["dest"]["proj"]) + (("Err", 0),)})       # the residual of a `?` is an Err
+                elif any(a["k"] in ("copy", "move") and read(a["place"]) for a in t["args"]):
+                    changed |= add(t["dest"]["local"], {fields_of(t["dest"]["proj"])})
+    return set(T)
+
+
 def assigned_locals(fn):
     """local -> list of (bb, idx|'t', stmt-or-term) definitions."""
     defs = {}
